@@ -563,7 +563,14 @@ class C01(Check):
                 self.violated("A5", MOD, f"Model.{qn}", "readouts-under-own-name", ro[0] if ro else f2, "readouts are not each evaluated on the value mapping and stored under their own name",
                               witness="get_args(include_readouts=True) overwrites another quantity / misses a readout")
         tc = methods["get_right_hand_side_time_course"]
-        if any(isinstance(c, ast.Call) and norm(c.func) == "self._get_right_hand_side" and {k.arg: norm(k.value) for k in c.keywords}.get("args") == "variables.to_dict()" for c in ast.walk(tc)):
+        tc_params = [a.arg for a in tc.args.args[1:] + tc.args.kwonlyargs]
+        row_vars = set()
+        for it in ast.walk(tc):
+            if isinstance(it, (ast.For, ast.comprehension)) and isinstance(it.target, ast.Tuple) and len(it.target.elts) == 2 and isinstance(it.target.elts[1], ast.Name) \
+                    and isinstance(it.iter, ast.Call) and isinstance(it.iter.func, ast.Attribute) and it.iter.func.attr == "iterrows" and norm(it.iter.func.value) in tc_params:
+                row_vars.add(it.target.elts[1].id)
+        if any(isinstance(c, ast.Call) and norm(c.func) == "self._get_right_hand_side" and {k.arg: norm(k.value) for k in c.keywords}.get("args") in {f"{v}.to_dict()" for v in row_vars} | {f"dict({v})" for v in row_vars}
+               for c in ast.walk(tc)):
             self.holds("A5", MOD, "Model.get_right_hand_side_time_course", "consumes-args-table", tc, "each row of the argument table is passed to _get_right_hand_side")
         else:
             self.violated("A5", MOD, "Model.get_right_hand_side_time_course", "consumes-args-table", tc, "time-course derivatives are not computed by _get_right_hand_side on each row of the argument table")
